@@ -305,7 +305,7 @@ func exec(r *harness.Run) *harness.Violation {
 	// Source.
 	var src source
 	opts := &scriggo.BuildOptions{AllowGoStmt: true}
-	switch s.Pick(6, 4, 1, 1, 1, 2) {
+	switch s.Pick(6, 4, 2, 1, 1, 2) {
 	case 5:
 		// A very short stored file: 1-6 delimiters/keywords (what is left of
 		// a file after a torn write near its beginning).
@@ -353,7 +353,14 @@ func exec(r *harness.Run) *harness.Violation {
 	sort.Strings(names)
 	dmg := "none"
 	victim := ""
-	if s.Chance(9, 10) {
+	// Generated file trees are also built undamaged half of the time: their
+	// reference graphs (extends in rendered files, cycles, escaping paths) are
+	// unusual inputs of their own.
+	dnum, dden := 9, 10
+	if src.name == "generated file tree" {
+		dnum, dden = 1, 2
+	}
+	if s.Chance(dnum, dden) {
 		victim = names[s.N(len(names))]
 		other := corpus[s.N(len(corpus))]
 		// (no map iteration in decision paths: the first file by name)
